@@ -390,6 +390,9 @@ class Shelxfile():
                 else:
                     multiline = False
                 self._reslist[line_num + wrapindex] = ''
+            if wrapindex:
+                # Instructions that are kept as text have to keep the parameters from their continuation lines:
+                self._reslist[line_num] = line
             # The current line split:
             spline: list = line.split('!')[0].split()  # Ignore comments with "!", see how this performes
             # The current line as string:
